@@ -1,5 +1,6 @@
 """C07 -- proximal operators return a global minimiser of u -> 0.5||u-x||^2 + s*pen(u)."""
 import math
+import os
 
 import numpy as np
 from hypothesis import strategies as st
@@ -90,6 +91,17 @@ def scalar_case(draw, name):
     spec = draw(scalar_spec(name, p))
     j = draw(st.integers(0, p - 1))
     step = draw(gen.pos_float(-3, 2))
+    # extreme scales: solvers call the prox with step = 1/lipschitz, which for badly scaled features is
+    # many decades away from 1 (alpha*step ~ 1e15 reached by the C01 generators)
+    extreme = name != "PositiveConstraint" and draw(st.integers(0, 5)) == 0
+    xscale = 1.
+    if extreme:
+        k = draw(st.integers(3, 18)) * draw(st.sampled_from([1, 1, -1]))
+        if draw(st.booleans()) or name in ("MCPenalty", "WeightedMCPenalty", "SCAD"):
+            spec["alpha"] = float(spec["alpha"] * 10. ** k)
+        else:
+            step = float(step * 10. ** k)
+        xscale = draw(st.sampled_from([1., 10. ** k, 10. ** (k / 2)]))
     if name in ("MCPenalty", "WeightedMCPenalty"):
         wt = spec["weights"][j] if "weights" in spec else 1.
         lim = spec["gamma"] / wt if wt > 0 else math.inf
@@ -111,8 +123,11 @@ def scalar_case(draw, name):
         if draw(st.booleans()):
             x = -x
     else:
-        x = draw(gen.real(-3, 3, zero=0.))
-    return dict(kind="scalar", pen=spec, j=j, step=step, x=x)
+        x = float(draw(gen.real(-3, 3, zero=0.)) * xscale)
+    case = dict(kind="scalar", pen=spec, j=j, step=step, x=x)
+    if extreme:
+        case["extreme"] = True
+    return case
 
 
 @st.composite
@@ -192,6 +207,74 @@ def _pen(spec):
     return _cache[k]
 
 
+def impl_prox(case):
+    """the call under test, and nothing else (runs in the watchdog helper process)."""
+    bootstrap()
+    s = case["step"]
+    if case["kind"] == "scalar":
+        return float(_pen(case["pen"])[0].prox_1d(case["x"], s, case["j"]))
+    which = case["which"]
+    x = np.array(case["x"], float)
+    if which == "BST_vec":
+        from skglm.utils import prox_funcs
+        return np.asarray(prox_funcs.BST_vec(x, case["level"], case["grp_size"]), float).tolist()
+    skp = _pen(case["pen"])[0]
+    if which in ("WeightedGroupL2", "WeightedGroupL2+", "WeightedL1GroupL2"):
+        out = skp.prox_1group(x, s, case["g"])
+    elif which in ("L2_1", "L2_05", "BlockMCPenalty", "BlockSCAD"):
+        out = skp.prox_1feat(x, s, 0)
+    else:
+        out = skp.prox_vec(x, s)
+    return np.asarray(out, float).tolist()
+
+
+_wd = None
+
+
+def guarded_prox(case):
+    """("ok", value) | ("exc", type, msg) | ("timeout", seconds) -- see pbt.watchdog."""
+    global _wd
+    if os.environ.get("VERIF_WATCHDOG", "1") == "0":
+        try:
+            return ("ok", impl_prox(case))
+        except Exception as e:  # noqa
+            return ("exc", type(e).__name__, repr(e))
+    if _wd is None:
+        from ..watchdog import Watchdog
+        _wd = Watchdog("pbt.checks.c07", "impl_prox")
+    return _wd.call(case, warmup=benign(case))
+
+
+def benign(case):
+    """same compiled signature, harmless numbers (watchdog warm-up: pays the compilation)."""
+    b = to_plain(case)
+    b.pop("extreme", None)
+    b["step"] = .5
+    b["x"] = .7 if case["kind"] == "scalar" else [.7] * len(case["x"])
+    if "level" in b:
+        b["level"] = 1.
+    pen = b.get("pen")
+    if pen:
+        for k, v in dict(alpha=1., gamma=3., eps=1., l1_ratio=.5).items():
+            if k in pen:
+                pen[k] = v
+        for k in ("weights", "alphas", "weights_features", "weights_groups"):
+            if k in pen:
+                pen[k] = [1.] * len(pen[k])
+    return b
+
+
+def to_plain(case):
+    import json
+    return json.loads(json.dumps(case))
+
+
+def _no_return(sig, case, secs, classes):
+    return result([Viol(dict(sig, kind="no-return"),
+                        f"prox call did not return within {secs:.0f}s (normal cost: microseconds): "
+                        f"{ {k: v for k, v in case.items()} }")], True, classes + ["no-return"])
+
+
 def check_case(case):
     bootstrap()
     if case["kind"] == "scalar":
@@ -204,13 +287,17 @@ def check_scalar(case):
     name = spec["name"]
     skp, rp = _pen(spec)
     sig = dict(site="prox_1d", penalty=name)
-    try:
-        u = float(skp.prox_1d(x, s, j))
-    except Exception as e:  # noqa
-        return result([Viol(dict(sig, kind="exception", exc=type(e).__name__), f"{name}.prox_1d({x}, {s}, {j}) raised {e!r}")], True)
     thr = [t for t in thresholds(spec, s, j) if t > 0]
     near = any(abs(abs(x) - t) <= .1 * t for t in thr)
     classes = [name, "x=0" if x == 0 else ("near-threshold" if near else "generic")]
+    if case.get("extreme"):
+        classes.append("extreme-scale")
+    got = guarded_prox(case)
+    if got[0] == "timeout":
+        return _no_return(sig, case, got[1], classes)
+    if got[0] == "exc":
+        return result([Viol(dict(sig, kind="exception", exc=got[1]), f"{name}.prox_1d({x}, {s}, {j}) raised {got[2]}")], True)
+    u = float(got[1])
     if not math.isfinite(u):
         return result([Viol(dict(sig, kind="non-finite", zero_input=(x == 0)),
                             f"{name}.prox_1d(x={x!r}, step={s!r}, j={j}) = {u} (params {spec})", out=u)], True, classes)
@@ -260,7 +347,6 @@ def _probe_better(objf, u, base, scale):
 
 
 def check_block(case):
-    from skglm.utils import prox_funcs
     which, s = case["which"], case["step"]
     x = np.array(case["x"], float)
     classes = [which, "x=0" if not x.any() else ("at-threshold" if case.get("at_threshold") else "generic")]
@@ -271,7 +357,6 @@ def check_block(case):
 
         def value_fn(u):
             return lvl * sum(np.linalg.norm(u[i:i + gs]) for i in range(0, len(u), gs))
-        call = lambda: prox_funcs.BST_vec(x, lvl, gs)  # noqa
         s = 1.
         extra = [np.concatenate([(max(0., 1 - lvl / np.linalg.norm(x[i:i + gs])) if np.linalg.norm(x[i:i + gs]) > 0 else 0.) * x[i:i + gs]
                                  for i in range(0, len(x), gs)])]
@@ -280,11 +365,9 @@ def check_block(case):
         if which in ("WeightedGroupL2", "WeightedGroupL2+"):
             g = case["g"]
             value_fn = lambda u: rp.block_value(u, g)  # noqa
-            call = lambda: skp.prox_1group(x, s, g)  # noqa
         elif which == "WeightedL1GroupL2":
             g = case["g"]
             value_fn = lambda u: rp.block_value(u, g)  # noqa
-            call = lambda: skp.prox_1group(x, s, g)  # noqa
             idx = rp.groups[g]
             stv = np.sign(x) * np.maximum(np.abs(x) - s * rp.alpha * rp.wf[idx], 0.)
             nr = np.linalg.norm(stv)
@@ -292,11 +375,9 @@ def check_block(case):
             extra = [np.zeros_like(x) if nr <= t else (1 - t / nr) * stv]
         elif which in ("L2_1", "L2_05", "BlockMCPenalty", "BlockSCAD"):
             value_fn = lambda u: rp.psi(float(np.linalg.norm(u)), 0)  # noqa
-            call = lambda: skp.prox_1feat(x, s, 0)  # noqa
         elif which == "SLOPE":
             al = np.array(case["pen"]["alphas"], float)
             value_fn = lambda u: R.slope_value(u, al)  # noqa
-            call = lambda: skp.prox_vec(x, s)  # noqa
             from sklearn.isotonic import isotonic_regression
             order = np.argsort(-np.abs(x), kind="stable")
             iso = np.maximum(isotonic_regression(np.abs(x)[order] - s * al, increasing=False), 0.)
@@ -305,13 +386,14 @@ def check_block(case):
             extra = [np.sign(x) * ref]
         elif which == "L0_5.prox_vec":
             value_fn = lambda u: float(sum(rp.phi(float(v), 0) for v in u))  # noqa
-            call = lambda: skp.prox_vec(x, s)  # noqa
             extra = [np.array([R.prox_scalar_min(rp, 0, float(v), s)[1] for v in x])]
-    try:
-        u = np.asarray(call(), float)
-    except Exception as e:  # noqa
-        return result([Viol(dict(sig, kind="exception", exc=type(e).__name__, zero_input=(not x.any())),
-                            f"{which} prox on x={x.tolist()} step={s} raised {e!r} (case {case.get('pen')})")], True, classes)
+    got = guarded_prox(case)
+    if got[0] == "timeout":
+        return _no_return(sig, case, got[1], classes)
+    if got[0] == "exc":
+        return result([Viol(dict(sig, kind="exception", exc=got[1], zero_input=(not x.any())),
+                            f"{which} prox on x={x.tolist()} step={s} raised {got[2]} (case {case.get('pen')})")], True, classes)
+    u = np.asarray(got[1], float)
     if u.shape != x.shape or not np.all(np.isfinite(u)):
         return result([Viol(dict(sig, kind="non-finite", zero_input=(not x.any())),
                             f"{which} prox on x={x.tolist()} step={s} returned {u.tolist()} (case {case.get('pen')})")], True, classes)
